@@ -86,7 +86,8 @@ fn gen_rich_term(r: &mut Rng, depth: usize) -> Unifiable {
     // names that differ only by a numeric suffix, in case, or by a longer tail are different variables
     let names = ["$X", "$Y", "$Z", "$Head", "$T", "$X_1", "$X_2", "$X_12", "$x", "$Xa", "$T_1"];
     match r.below(12) {
-        0 | 1 | 2 => logic_var!(*r.pick(&names)),
+        // stored clauses may carry variable ids already (rules taken from another knowledge base): renaming goes by name
+        0 | 1 | 2 => { let nm = *r.pick(&names); if r.chance(1, 4) { logic_var!(1 + r.below(40), nm) } else { logic_var!(nm) } },
         3 => atom!("a"), 4 => SInteger(7), 5 => SFloat(2.5), 6 => Unifiable::Anonymous,
         7 if depth < 3 => { let n = 1 + r.below(3); let mut a = vec![atom!("f")]; for _ in 0..n { a.push(gen_rich_term(r, depth + 1)); } Unifiable::SComplex(a) },
         8 | 9 if depth < 3 => {
